@@ -7,6 +7,14 @@ import progs as P
 class Ids:
     def __init__(self):
         self.n = 0
+        self.nsrc = 0      # nested source texts met so far: their nodes are numbered from 100000 * nsrc
+
+    def sub(self):
+        self.nsrc += 1
+        s = Ids()
+        s.n = 100000 * self.nsrc
+        s.nsrc = 50 + 10 * self.nsrc          # (a source nested in a nested source gets a range of its own)
+        return s
 
     def next(self):
         self.n += 1
@@ -44,7 +52,8 @@ def to_ast(e, ids):
         return node("str", s=e[1], i=ids.next())
     if k == "src":
         i = ids.next()
-        return node("str", s=P.render(e), c=[to_ast(x, Ids()) for x in e[1]], i=i)
+        sub = ids.sub()
+        return node("str", s=P.render(e), c=[to_ast(x, sub) for x in e[1]], i=i)
     if k == "q":
         inner = to_ast(e[1], ids)
         if not inner["q"]:
@@ -99,7 +108,20 @@ class Layout:
             self.w("'")
             self.emit(e[1], ids, depth, start=here)
         elif e[0] == "src":
+            # the nodes of a nested source text: positions are those INSIDE the text (one line, forms separated by one
+            # blank, exactly as progs.render writes it), under the file name the runtime gives such a text
             self.pos[ids.next()] = here
+            sub = ids.sub()
+            inner = Layout(None)
+            for j, x in enumerate(e[1]):
+                if j:
+                    inner.w(" ")
+                inner.emit(x, sub)
+            for i2, lc in inner.pos.items():
+                self.pos[i2] = lc if len(lc) == 3 else ("load-string", lc[0], lc[1])
+            text = "".join(inner.buf)
+            if text != " ".join(P.render(x) for x in e[1]):
+                raise ValueError("nested source rendered two ways")
             self.w(P.render(e))
         else:
             self.pos[ids.next()] = here
@@ -121,7 +143,7 @@ def prog_with_layout(pid, evals, cfg=None, modes=None, rnd=None):
         lay = Layout(rnd)
         srcs.append(lay.forms(forms, ids))
         for i, lc in lay.pos.items():
-            pos[i] = (k, lc[0], lc[1])
+            pos[i] = lc if len(lc) == 3 else (k, lc[0], lc[1])
     return rec, srcs, pos
 
 
